@@ -48,6 +48,7 @@ static int lock_want;   /* >0 while the next `pipe` creations are the once-per-p
 static struct ent L[MAXFD];
 static char priv[MAXFD], base[MAXFD];
 static int next_id, in_uv, main_pid, out_fd = 1, nviol;
+static int quiet, qcount;                       /* `util` ops: ledger + monitors, but no env lines and no canonical ids */
 static int auth_close = -1;                     /* uv_fs_close(fd): user asked for this close */
 static char tmpdir[512];
 
@@ -83,8 +84,10 @@ static int inject(const char* name) {
 static void reg(int fd, const char* kind) {
   if (fd < 0 || fd >= MAXFD || !active()) return;
   struct ent* e = &L[fd];
+  if (e->live && e->id >= 900000) e->live = 0;   /* transient fd of a `util` call, closed inside libc (fclose, closedir) */
   if (e->live) viol("LEDGER-REUSE", "kernel fd %d reused while f%d live", fd, e->id);
-  e->live = 1; e->id = e->lastid = next_id++; e->bylib = 1; e->user = 0; e->xfer = 0; e->glob = 0; e->reported = 0;
+  e->live = 1; e->id = e->lastid = quiet ? 900000 + qcount++ : next_id++; e->bylib = 1; e->user = 0; e->xfer = 0; e->glob = 0; e->reported = 0;
+  if (quiet) return;
   if (lock_want > 0 && !strcmp(kind, "pipe")) { e->glob = 1; lock_want--; }
   int fl = getfd_flags(fd);
   outf("env fd+ f%d %s cx=%d", e->id, kind, fl >= 0 && (fl & FD_CLOEXEC) ? 1 : 0);
@@ -112,7 +115,7 @@ static int do_close(int fd) {
   }
   if (en->user && !en->xfer && fd != auth_close)
     viol("FOREIGN-CLOSE", "close of user-owned f%d (no ownership transfer)", en->id);
-  outf("env fd- f%d", en->id);
+  if (!quiet || en->id < 900000) outf("env fd- f%d", en->id);
   en->live = 0;
   if (fd == 2) return 0;
   return (int) RAW(SYS_close, fd);
@@ -205,7 +208,7 @@ long syscall(long n, ...) {
 enum { K_TCP, K_PIPE, K_UDP, K_TTY, K_POLL, K_ASYNC, K_SIGNAL, K_FSEV, K_PROC };
 static const char* KN[] = { "tcp", "pipe", "udp", "tty", "poll", "async", "signal", "fsev", "proc" };
 struct H { int kind, st /*0 dead 1 live 2 closing 3 closed*/, policy /*0 hold 1 accept*/, counted; uv_handle_t* h; };
-static struct H HS[256]; static int nh;
+static struct H HS[1024]; static int nh;
 static uv_loop_t* loop; static int loop_ok;
 static long progress; static int nproc_live, nconn_inflight;
 
@@ -256,6 +259,14 @@ static void noop_signal(uv_signal_t* s, int n) {}
 static void noop_fsev(uv_fs_event_t* h, const char* f, int ev, int st) {}
 static void noop_poll(uv_poll_t* h, int st, int ev) {}
 
+static int fs_done; static long fs_result;
+static void fs_cb(uv_fs_t* req) { fs_done = 1; fs_result = req->result; progress++; }
+/* thread-pool variant of an fs request: submit, then turn the loop until its callback ran */
+static long fs_wait(uv_fs_t* req, int rc) {
+  if (rc < 0) return rc;
+  for (int it = 0; it < 200000 && !fs_done; it++) { uv_run(loop, UV_RUN_NOWAIT); if (!fs_done) usleep(200); }
+  long r = fs_done ? fs_result : UV_ETIMEDOUT; uv_fs_req_cleanup(req); return r;
+}
 /* ------------------------------------------------------------------ monitors */
 static int scan_proc(char* open_now) {       /* fills open_now[MAXFD]; raw getdents to avoid libc fds */
   memset(open_now, 0, MAXFD);
@@ -310,7 +321,8 @@ static void adopt(const char* now) {
 }
 /* every loop / handle field that holds a descriptor number must refer to an open, ledger-known descriptor */
 static void dangling(const char* now) {
-#define CHK(v, ...) do { int k_ = (v); if (k_ >= 0 && k_ < MAXFD && (!now[k_] || !L[k_].live)) { char b_[96]; snprintf(b_, sizeof b_, __VA_ARGS__); viol("DANGLING-FIELD", "%s holds descriptor number %d which is closed (a later descriptor with that number would be closed by mistake)", b_, k_); } } while (0)
+  static char dseen[MAXFD];
+#define CHK(v, ...) do { int k_ = (v); if (k_ >= 0 && k_ < MAXFD && (!now[k_] || !L[k_].live) && !dseen[k_]++) { char b_[96]; snprintf(b_, sizeof b_, __VA_ARGS__); viol("DANGLING-FIELD", "%s holds descriptor number %d which is closed (a later descriptor with that number would be closed by mistake)", b_, k_); } } while (0)
   if (loop_ok) {
     uv__loop_internal_fields_t* lf = uv__get_internal_fields(loop);
     CHK(loop->backend_fd, "loop.backend_fd"); CHK(loop->emfile_fd, "loop.emfile_fd"); CHK(loop->async_io_watcher.fd, "loop.async_io_watcher.fd");
@@ -339,7 +351,7 @@ static void monitors(int final) {
     if (e->bylib) { int fl = getfd_flags(k); if ((fl < 0 || !(fl & FD_CLOEXEC)) && !(e->reported & 2) && (e->reported |= 2)) viol("NO-CLOEXEC", "f%d created by libuv lacks FD_CLOEXEC at API return", e->id); }
     char ow[256]; owners_of(k, ow, sizeof ow);
     if (!ow[0] && e->user && e->xfer) e->xfer = 0;   /* handle closed, stdio descriptor left open: back to the caller */
-    if (strchr(ow, '+')) viol("OWNER-DUP", "f%d referenced by %s", e->id, ow);
+    if (strchr(ow, '+') && !(e->reported & 4) && (e->reported |= 4)) viol("OWNER-DUP", "f%d referenced by %s", e->id, ow);
     const char* o = ow[0] ? ow : (e->user ? "U" : e->glob ? "G" : "-");
     if (!strcmp(o, "-") && !(e->reported & 1) && (e->reported |= 1)) viol("LEAK", "f%d created by libuv is open at API return but no loop/handle field refers to it and it was not handed to the caller", e->id);
     n += snprintf(line + n, sizeof line - n, " f%d:%s", e->id, o);
@@ -379,7 +391,7 @@ static int fid(const char* s) { return s && s[0] == 'f' ? atoi(s + 1) : -1; }
 static int live_h(int i, int kind) { return i >= 0 && i < nh && HS[i].st == 1 && (kind < 0 || HS[i].kind == kind); }
 
 static void tcp_addr_of(int i, struct sockaddr_in* a) { int l = sizeof *a; memset(a, 0, sizeof *a); uv_tcp_getsockname((uv_tcp_t*) HS[i].h, (struct sockaddr*) a, &l); }
-static char pipename[256][300];
+static char pipename[1024][300];
 
 int main(int argc, char** argv) {
   if (argc > 1 && !strcmp(argv[1], "child")) child_main();
@@ -498,7 +510,7 @@ int main(int argc, char** argv) {
       outf("ret %s", R(rc)); outf("# rc=%d", rc);
     } else if (!strcmp(op, "listen") && nw == 2) {
       int i = hid(w[1]); if (!live_h(i, -1) || (HS[i].kind != K_TCP && HS[i].kind != K_PIPE)) { outf("bad-op"); goto after; }
-      int rc = UVCALL(uv_listen((uv_stream_t*) HS[i].h, 16, conn_cb)); outf("ret %s", R(rc)); outf("# rc=%d", rc);
+      int rc = UVCALL(uv_listen((uv_stream_t*) HS[i].h, 512, conn_cb)); outf("ret %s", R(rc)); outf("# rc=%d", rc);
     } else if (!strcmp(op, "policy") && nw == 3) {
       int i = hid(w[1]); if (!live_h(i, -1)) { outf("bad-op"); goto after; }
       HS[i].policy = !strcmp(w[2], "accept") ? 1 : !strcmp(w[2], "close") ? 2 : 0; goto quiet;
@@ -539,12 +551,14 @@ int main(int argc, char** argv) {
     } else if (!strcmp(op, "uv_socketpair") && nw == 3) {
       int p[2] = { -1, -1 }; int rc = UVCALL(uv_socketpair(SOCK_STREAM, 0, p, atoi(w[1]) ? UV_NONBLOCK_PIPE : 0, atoi(w[2]) ? UV_NONBLOCK_PIPE : 0));
       if (rc == 0) { L[p[0]].user = 1; L[p[1]].user = 1; } outf("ret %s", R(rc));
-    } else if (!strcmp(op, "fs_open") && nw == 2) {
-      char p[600]; uv_fs_t req; int fl = O_RDONLY;
+    } else if (!strcmp(op, "fs_open") && (nw == 2 || (nw == 3 && !strcmp(w[2], "async")))) {
+      char p[600]; static uv_fs_t req; int fl = O_RDONLY; int as = nw == 3;
       if (!strcmp(w[1], "ok")) snprintf(p, sizeof p, "/dev/null");
       else if (!strcmp(w[1], "creat")) { snprintf(p, sizeof p, "%s/F%d", tmpdir, next_id); fl = O_RDWR | O_CREAT; }
       else snprintf(p, sizeof p, "%s/missing", tmpdir);
-      int rc = UVCALL(uv_fs_open(loop, &req, p, fl, 0600, NULL)); uv_fs_req_cleanup(&req);
+      int rc;
+      if (as) { fs_done = 0; in_uv = 1; rc = (int) fs_wait(&req, uv_fs_open(loop, &req, p, fl, 0600, fs_cb)); in_uv = 0; }
+      else { rc = UVCALL(uv_fs_open(loop, &req, p, fl, 0600, NULL)); uv_fs_req_cleanup(&req); }
       if (rc >= 0 && rc < MAXFD && L[rc].live) { L[rc].user = 1; outf("ret f%d", L[rc].id); } else outf("ret %s", rc >= 0 ? "?" : "E");
     } else if (!strcmp(op, "fs_mkstemp")) {
       char p[600]; uv_fs_t req; snprintf(p, sizeof p, "%s/tXXXXXX", tmpdir);
@@ -554,10 +568,58 @@ int main(int argc, char** argv) {
     } else if (!strcmp(op, "fs_close") && nw == 2) {
       int k = kfd_of(fid(w[1])); if (k < 0 || !L[k].user || L[k].xfer || k <= 2) { outf("bad-op"); goto after; }
       uv_fs_t req; auth_close = k; int rc = UVCALL(uv_fs_close(loop, &req, k, NULL)); auth_close = -1; uv_fs_req_cleanup(&req); outf("ret %s", R(rc));
-    } else if (!strcmp(op, "fs_copyfile") && nw == 2) {
-      char a[600], b[600]; uv_fs_t req; snprintf(a, sizeof a, "%s/%s", tmpdir, !strcmp(w[1], "ok") ? "src" : "missing"); snprintf(b, sizeof b, "%s/dst%d", tmpdir, next_id);
-      if (!strcmp(w[1], "ok")) { int f = (int) RAW(SYS_openat, AT_FDCWD, a, O_WRONLY | O_CREAT | O_CLOEXEC, 0600); raw6(SYS_write, f, (long) "hello", 5, 0, 0, 0); raw6(SYS_close, f, 0, 0, 0, 0, 0); }
-      int rc = UVCALL(uv_fs_copyfile(loop, &req, a, b, 0, NULL)); uv_fs_req_cleanup(&req); outf("ret %s", R(rc));
+    } else if (!strcmp(op, "fs_copyfile") && (nw == 2 || (nw == 3 && !strcmp(w[2], "async")))) {
+      /* variants: ok (fresh destination) | missing (no source) | same (dst = src path) | link (dst is a hard link to src)
+       *           exists (dst exists, truncated) | excl (dst exists + UV_FS_COPYFILE_EXCL -> EEXIST) | ficlone */
+      char a[600], b[600]; static uv_fs_t req; int flags = 0, as = nw == 3; const char* v = w[1];
+      snprintf(a, sizeof a, "%s/%s", tmpdir, !strcmp(v, "missing") ? "missing" : "src"); snprintf(b, sizeof b, "%s/dst%d", tmpdir, next_id);
+      if (strcmp(v, "ok") && strcmp(v, "missing") && strcmp(v, "same") && strcmp(v, "link") && strcmp(v, "exists") && strcmp(v, "excl") && strcmp(v, "ficlone")) { outf("bad-op"); goto after; }
+      if (strcmp(v, "missing")) { int f = (int) RAW(SYS_openat, AT_FDCWD, a, O_WRONLY | O_CREAT | O_CLOEXEC, 0600); raw6(SYS_write, f, (long) "hello", 5, 0, 0, 0); raw6(SYS_close, f, 0, 0, 0, 0, 0); }
+      if (!strcmp(v, "same")) snprintf(b, sizeof b, "%s", a);
+      if (!strcmp(v, "link")) { raw6(SYS_unlinkat, AT_FDCWD, (long) b, 0, 0, 0, 0); raw6(SYS_linkat, AT_FDCWD, (long) a, AT_FDCWD, (long) b, 0, 0); }
+      if (!strcmp(v, "exists") || !strcmp(v, "excl")) { int f = (int) RAW(SYS_openat, AT_FDCWD, b, O_WRONLY | O_CREAT | O_CLOEXEC, 0600); raw6(SYS_write, f, (long) "old-old-old", 11, 0, 0, 0); raw6(SYS_close, f, 0, 0, 0, 0, 0); }
+      if (!strcmp(v, "excl")) flags = UV_FS_COPYFILE_EXCL;
+      if (!strcmp(v, "ficlone")) flags = UV_FS_COPYFILE_FICLONE;
+      int rc;
+      if (as) { fs_done = 0; in_uv = 1; rc = (int) fs_wait(&req, uv_fs_copyfile(loop, &req, a, b, flags, fs_cb)); in_uv = 0; }
+      else { rc = UVCALL(uv_fs_copyfile(loop, &req, a, b, flags, NULL)); uv_fs_req_cleanup(&req); }
+      outf("ret %s", R(rc));
+    } else if (!strcmp(op, "flood") && nw == 3) {
+      /* n clients connect to listening server w[1] and go away again: the connections stay in the backlog */
+      int sv = hid(w[1]), n = atoi(w[2]); if (!live_h(sv, -1) || (HS[sv].kind != K_TCP && HS[sv].kind != K_PIPE) || n < 0 || n > 400) { outf("bad-op"); goto after; }
+      int okc = 0;
+      for (int j = 0; j < n; j++) {
+        int c; long cr;
+        if (HS[sv].kind == K_TCP) { struct sockaddr_in a; tcp_addr_of(sv, &a); c = mk_sock(AF_INET, SOCK_STREAM); cr = raw6(SYS_connect, c, (long) &a, sizeof a, 0, 0, 0); }
+        else { struct sockaddr_un u; memset(&u, 0, sizeof u); u.sun_family = AF_UNIX; snprintf(u.sun_path, sizeof u.sun_path, "%s", pipename[sv]); c = mk_sock(AF_UNIX, SOCK_STREAM); cr = raw6(SYS_connect, c, (long) &u, sizeof u, 0, 0, 0); }
+        if (cr == 0) okc++;
+        raw6(SYS_close, c, 0, 0, 0, 0, 0);
+      }
+      outf("ret %s", okc == n ? "0" : "E");
+    } else if (!strcmp(op, "util") && nw == 2) {
+      /* calls outside the catalogue: only the monitors judge them (no env lines, the model says `ret 0`) */
+      const char* u = w[1]; quiet = 1; in_uv = 1;
+      if (!strcmp(u, "cpu_info")) { uv_cpu_info_t* ci; int n; if (uv_cpu_info(&ci, &n) == 0) uv_free_cpu_info(ci, n); }
+      else if (!strcmp(u, "exepath")) { char b[512]; size_t l = sizeof b; uv_exepath(b, &l); }
+      else if (!strcmp(u, "memory")) { size_t r; uv_get_free_memory(); uv_get_total_memory(); uv_get_constrained_memory(); uv_get_available_memory(); uv_resident_set_memory(&r); }
+      else if (!strcmp(u, "uptime")) { double d; double la[3]; uv_uptime(&d); uv_loadavg(la); }
+      else if (!strcmp(u, "ifaddrs")) { uv_interface_address_t* ia; int n; if (uv_interface_addresses(&ia, &n) == 0) uv_free_interface_addresses(ia, n); }
+      else if (!strcmp(u, "random")) { char b[64]; uv_random(NULL, NULL, b, sizeof b, 0, NULL); }
+      else if (!strcmp(u, "passwd")) { uv_passwd_t pw; if (uv_os_get_passwd(&pw) == 0) uv_os_free_passwd(&pw); char b[256]; size_t l = sizeof b; uv_os_homedir(b, &l); l = sizeof b; uv_os_tmpdir(b, &l); }
+      else if (!strcmp(u, "scandir")) { uv_fs_t r; uv_dirent_t de; if (uv_fs_scandir(loop, &r, tmpdir, 0, NULL) >= 0) while (uv_fs_scandir_next(&r, &de) != UV_EOF); uv_fs_req_cleanup(&r); }
+      else if (!strcmp(u, "readdir")) {
+        uv_fs_t r; uv_dirent_t de[4];
+        if (uv_fs_opendir(loop, &r, tmpdir, NULL) == 0) { uv_dir_t* d = r.ptr; uv_fs_req_cleanup(&r); d->dirents = de; d->nentries = 4;
+          uv_fs_readdir(loop, &r, d, NULL); uv_fs_req_cleanup(&r); uv_fs_closedir(loop, &r, d, NULL); }
+        uv_fs_req_cleanup(&r); }
+      else if (!strcmp(u, "stat")) { uv_fs_t r; uv_fs_stat(loop, &r, tmpdir, NULL); uv_fs_req_cleanup(&r); uv_fs_lstat(loop, &r, "/dev/null", NULL); uv_fs_req_cleanup(&r); uv_fs_statfs(loop, &r, tmpdir, NULL); uv_fs_req_cleanup(&r); }
+      else if (!strcmp(u, "realpath")) { uv_fs_t r; uv_fs_realpath(loop, &r, tmpdir, NULL); uv_fs_req_cleanup(&r); uv_fs_access(loop, &r, tmpdir, 0, NULL); uv_fs_req_cleanup(&r); }
+      else if (!strcmp(u, "mkdtemp")) { uv_fs_t r; char t[600]; snprintf(t, sizeof t, "%s/dXXXXXX", tmpdir); uv_fs_mkdtemp(loop, &r, t, NULL); uv_fs_req_cleanup(&r); }
+      else { in_uv = 0; quiet = 0; outf("bad-op"); goto after; }
+      in_uv = 0; quiet = 0;
+      { char now_[MAXFD]; if (!scan_proc(now_)) for (int k = 0; k < MAXFD; k++) if (L[k].live && L[k].id >= 900000 && !now_[k]) L[k].live = 0; }
+      for (int k = 0; k < MAXFD; k++) if (L[k].live && L[k].id >= 900000) { viol("LEAK", "kernel fd %d created inside `util %s` is still open when the call returned", k, u); L[k].live = 0; priv[k] = 1; }
+      outf("ret 0");
     } else if (!strcmp(op, "ipc_send") && nw >= 4) {
       /* ipc_send f<peer> h<receiver> kinds...: send fresh descriptors over user fd w[1] (peer of IPC pipe handle w[2]) */
       int k = kfd_of(fid(w[1])); if (k < 0 || !L[k].user || L[k].xfer) { outf("bad-op"); goto after; }
